@@ -205,7 +205,11 @@ static void run_C17(const Args &a, long cs) {
 	std::vector<std::vector<double>> grid(nd); size_t gtot = 1;
 	for (int d = 0; d < nd; d++) { const auto &k = s.knots[d]; int np = r.coin(0.15) ? 1 : 1 + (int)r.below(nd >= 3 ? 5 : 8);
 		for (int i = 0; i < np; i++) { double v; switch (r.below(7)) { case 0: v = k[r.below(k.size())]; break; case 1: v = k[0] - 0.5 - r.U(); break; case 2: v = k.back() + 0.3 + r.U(); break; case 3: v = std::nextafter(k[1 + r.below(k.size() - 1)], -INFINITY); break; default: v = k[0] + (k.back() - k[0]) * r.U(); } grid[d].push_back(v); }
-		if (np > 1 && r.coin(0.3)) grid[d][np - 1] = grid[d][0]; gtot *= (size_t)np; }
+		if (np > 1 && r.coin(0.3)) grid[d][np - 1] = grid[d][0];
+		if (r.coin(0.12)) { // non-finite abscissae (not judged: not inside the knot range), sometimes most of an axis
+			static const double nf[] = {NAN, INFINITY, -INFINITY}; size_t how = r.coin(0.5) ? 1 : grid[d].size(); for (size_t q = 0; q < how; q++) if (how == 1 || r.coin(0.8)) grid[d][r.below(grid[d].size())] = nf[r.below(3)];
+			if (r.coin(0.3)) { size_t extra = 4 + r.below(12); for (size_t q = 0; q < extra; q++) grid[d].push_back(nf[r.below(3)]); np = (int)grid[d].size(); } count("grid-axes-with-non-finite-abscissae"); }
+		gtot *= (size_t)np; }
 	std::string gj = "{\"grid_lengths\":["; for (int d = 0; d < nd; d++) gj += (d ? "," : "") + std::to_string(grid[d].size()); gj += "],\"table\":" + s.brief() + "}";
 	count("grids"); count("ndim:" + std::to_string(nd)); count("grid-points", (long)gtot);
 	phase_log("grideval"); context(gj);
